@@ -137,13 +137,20 @@ func versionGuards(in ssa.Instruction) []string {
 	var out []string
 	for _, i := range ssau.Ifs(fn) {
 		base, neg := ssau.StripNot(i.Cond)
-		if !ssau.DependsOn(base, func(x ssa.Value) bool {
+		bo, isBin := base.(*ssa.BinOp)
+		if !isBin {
+			continue
+		}
+		isVer := func(x ssa.Value) bool {
+			x = ssau.Unwrap(x)
 			if p, ok := x.(*ssa.Parameter); ok {
-				n := strings.ToLower(p.Name())
-				return strings.Contains(n, "version")
+				return strings.Contains(strings.ToLower(p.Name()), "version")
 			}
 			return ssau.IsFieldOf(x, "", "version") || ssau.IsFieldOf(x, "", "payloadVersion") || ssau.IsFieldOf(x, "", "Version") || ssau.IsFieldOf(x, "", "txType")
-		}) {
+		}
+		_, cx := bo.X.(*ssa.Const)
+		_, cy := bo.Y.(*ssa.Const)
+		if !((isVer(bo.X) && cy) || (isVer(bo.Y) && cx)) {
 			continue
 		}
 		s := ssau.CondString(base)
